@@ -256,6 +256,6 @@ def eval_case(case):
 def campaigns(tier):
     q = tier == "quick"
     return [
-        Campaign("reports", "hyp", evaluate=eval_case, strategy=cases, n=1200 if q else 30000, floor_nontrivial=0.2,
+        Campaign("reports", "hyp", evaluate=eval_case, strategy=cases, n=2400 if q else 30000, floor_nontrivial=0.2,
                  describe="task reports (json/csv, columns, formats, leaf filter) generated repeatedly via the API and compared with the observed schedule"),
     ]
